@@ -91,6 +91,25 @@ fn gen_message(rng: &mut Rng, uni: &Universe, doc: usize, with_fp: bool) -> WMes
     WMessage { parts }
 }
 
+/// values for the whole document plus an empty fingerprint over it: the receiver stores what is valid
+/// and has to answer (its fingerprint of a non-empty document differs)
+fn gen_busy_message(rng: &mut Rng, uni: &Universe, doc: usize) -> WMessage {
+    let ns = NamespaceId::from(&uni.docs[doc].0);
+    let w = World { ns: NamespaceSecret::from_bytes(&uni.docs[doc].1), authors: uni.authors.clone() };
+    let foreign = NamespaceSecret::from_bytes(&rng.bytes32());
+    let x = RecordIdentifier::new(ns, rng.pick(&uni.authors).id(), gen_key(rng));
+    let mut values = Vec::new();
+    for _ in 0..1 + rng.below(3) {
+        let mut t = gen_wire(rng, &w, &foreign, T0 + 10);
+        while t.w.id.len() < 64 { t = gen_wire(rng, &w, &foreign, T0 + 10); }
+        values.push((t.w, rng.below(3) as u8));
+    }
+    WMessage { parts: vec![
+        WPart::Item { x: x.as_ref().to_vec(), y: x.as_ref().to_vec(), values, have_local: true },
+        WPart::Fingerprint { x: x.as_ref().to_vec(), y: x.as_ref().to_vec(), fp: verif::empty_fingerprint() },
+    ] }
+}
+
 fn frame_bytes(f: &Fin) -> anyhow::Result<Vec<u8>> {
     Ok(match f {
         Fin::Msg { init, abort, ns, m } => {
@@ -169,6 +188,17 @@ pub fn run(seed: u64, n: usize, out: &Path, _thorough: bool) -> anyhow::Result<(
                 script.push(Fin::Act(AOp::Open { ns, sync: rng.chance(1, 2), sub: None }));
             }
         }
+        // the handshake sent twice (same document, again with values) in a sixth of the accepting runs
+        if is_bob && rng.chance(1, 6) {
+            if let Some(pos) = script.iter().position(|f| matches!(f, Fin::Msg { init: true, abort: None, .. })) {
+                // both handshakes carry values and a fingerprint that cannot match, so that the session
+                // is still running (a reply is pending) when the second one arrives
+                let target = match &script[pos] { Fin::Msg { ns, .. } => *ns, _ => unreachable!() };
+                script[pos] = Fin::Msg { init: true, abort: None, ns: target, m: gen_busy_message(&mut rng, &uni, doc) };
+                script.insert(pos + 1, Fin::Msg { init: true, abort: None, ns: target, m: gen_busy_message(&mut rng, &uni, doc) });
+                stats.inc("script_double_init");
+            }
+        }
         let accept: Option<AbortReason> = if is_bob && rng.chance(1, 6) { Some(*rng.pick(&[AbortReason::NotFound, AbortReason::AlreadySyncing])) } else { None };
 
         if std::env::var("VERIF_DEBUG").is_ok() {
@@ -216,8 +246,15 @@ pub fn run(seed: u64, n: usize, out: &Path, _thorough: bool) -> anyhow::Result<(
             let task = tokio::spawn(async move {
                 if is_bob {
                     let mut state = BobState::new(peer);
-                    let r = state.run(&mut drv_w, &mut drv_r, h2, move |_ns, _peer| async move {
-                        match acc { Some(r) => AcceptOutcome::Reject(r), None => AcceptOutcome::Allow }
+                    // the callback answers like the live engine's: the session's first request gets the
+                    // scripted answer, any further request while that session runs is declined
+                    let calls = std::sync::Arc::new(std::sync::atomic::AtomicUsize::new(0));
+                    let r = state.run(&mut drv_w, &mut drv_r, h2, move |_ns, _peer| {
+                        let k = calls.fetch_add(1, std::sync::atomic::Ordering::SeqCst);
+                        async move {
+                            if k > 0 { return AcceptOutcome::Reject(AbortReason::AlreadySyncing); }
+                            match acc { Some(r) => AcceptOutcome::Reject(r), None => AcceptOutcome::Allow }
+                        }
                     }).await;
                     let namespace = state.namespace();
                     let outcome = std::panic::catch_unwind(std::panic::AssertUnwindSafe(|| state.into_outcome())).ok();
